@@ -2,7 +2,7 @@
    lookups of Model/History.v that every theorem about sealing and verifying is stated with. *)
 From Coq Require Import List NArith Bool.
 Import ListNotations.
-From MHL Require Import Model.History Model.Seal Model.Emit Gen.GeneratedFns Proofs.BaseFacts Proofs.SealFacts.
+From MHL Require Import Gen.Generated Model.Ignore Model.History Model.Seal Model.Emit Gen.GeneratedFns Proofs.BaseFacts Proofs.SealFacts.
 
 Lemma find_pred_ext {A} (f g : A -> bool) l : (forall x, f x = g x) -> find f l = find g l.
 Proof. intros H. induction l as [|a l IH]; cbn [find]; [reflexivity|]. rewrite H, IH. reflexivity. Qed.
@@ -173,4 +173,24 @@ Proof.
   unfold src_find_directory_entries, find_directory_entries. cbv zeta.
   rewrite dir_entries_fold. cbn [app].
   destruct p as [|n p']; cbn [is_nil]; [apply root_entries_fold|rewrite app_nil_r; reflexivity].
+Qed.
+
+(* ---- ignore.MHLIgnoreSpec ------------------------------------------------------------------------------------------- *)
+Lemma append_patterns_fold : forall ps acc,
+  fold_left (fun ignore_list line => if negb (mem_text line ignore_list) then ignore_list ++ [line] else ignore_list) ps acc = append_patterns acc ps.
+Proof.
+  induction ps as [|p ps IH]; intros acc; cbn [fold_left append_patterns]; [reflexivity|].
+  destruct (mem_text p acc); cbn [negb]; apply IH.
+Qed.
+Theorem src_append_patterns_list_is_model acc ps : src_append_patterns_list acc ps = append_patterns acc ps.
+Proof.
+  unfold src_append_patterns_list. destruct ps as [|p ps]; cbn [is_nil negb]; [reflexivity|]. apply append_patterns_fold.
+Qed.
+Theorem src_set_patterns_is_model existing new file :
+  src_set_patterns existing new file = set_patterns existing new (match file with Some lines => pattern_file_lines lines | None => [] end).
+Proof.
+  unfold src_set_patterns, set_patterns, src_append_patterns_from_file, pattern_file_lines. cbv zeta.
+  destruct existing as [|e es]; cbn [is_nil negb]; rewrite !src_append_patterns_list_is_model;
+    destruct new as [|n ns]; cbn [is_nil negb]; rewrite ?src_append_patterns_list_is_model;
+    destruct file as [lines|]; rewrite ?src_append_patterns_list_is_model; reflexivity.
 Qed.
